@@ -3,6 +3,7 @@ from __future__ import annotations
 import argparse
 import importlib
 import json
+import ast
 import os
 import sys
 import traceback
@@ -291,6 +292,21 @@ def generic_rules(ctx) -> None:
         ctx.chk.extra["manual_align_sites"] = ma
         if dp:
             ctx.chk.ok(f"{ctx.chk.prop}.dead-parameter", "anchor modules", f"{dp} parameters of non-interface functions scanned; every one is read by its body (3 frozen exceptions)")
+        from .engines import typecmp
+        tab = typecmp.return_table(ctx.prog.modules.values())
+        tc = 0
+        for rp in files:
+            m = ctx.prog.modules.get(rp) or next((x for x in ctx.prog.modules.values() if x.relpath == rp), None)
+            if m is None:
+                continue
+            for node in ast.walk(m.tree):
+                if isinstance(node, ast.Compare) and any(isinstance(x, ast.Call) and typecmp.declared(tab, x) for x in [node.left] + list(node.comparators)):
+                    tc += 1
+            for node, why in typecmp.dead_comparisons(m, tab):
+                ctx.chk.bad(f"{ctx.chk.prop}.typed-comparison", f"{rp}:{node.lineno} `{ast.unparse(node)[:90]}`", why, "both sides of an equality / membership test have the same declared type", f"{rp}:{node.lineno}")
+        ctx.chk.extra["typed_comparisons_scanned"] = tc
+        if tc:
+            ctx.chk.ok(f"{ctx.chk.prop}.typed-comparison", "anchor modules", f"{tc} comparisons of a call with a uniformly declared simple return type scanned; none compares it with a literal of another type")
         from .engines import guardconj
         g = guardconj.check(ctx, f"{ctx.chk.prop}.guard-conjunction", files)
         ctx.chk.extra["raising_guards_scanned"] = g
